@@ -1122,6 +1122,57 @@ macro_rules! area_native_case {
         }
     }};
 }
+/// the same on unsigned element types (pixel / grid coordinates): everything is measured from the
+/// corner `a` (b >= a and c >= a componentwise) and c is left of or on ab, so the edge vectors, both
+/// products and the cross product itself are natural numbers that fit the type: the documented value
+/// is computable, and must come back (in a build with overflow checks a refusal shows as a panic)
+macro_rules! area_unsigned_case {
+    ($sub:expr, $cfg:expr, $idx:expr, $T:ty, $ty:expr, $off:expr, $edge:expr) => {{
+        let mut rng = Rng::for_case(concat!("area_unsigned/", $ty), $cfg.case_seed(), $idx);
+        let off: i64 = $off;
+        let ed: i64 = $edge;
+        let a = [rng.range_i64(0, off), rng.range_i64(0, off)];
+        let (dx, dy) = (rng.range_i64(0, ed), rng.range_i64(0, ed));
+        let (mut ex, mut ey) = (rng.range_i64(0, ed), rng.range_i64(0, ed));
+        if rng.chance(1, 6) { let k = rng.range_i64(0, 1); ex = k * dx; ey = k * dy; }
+        // keep c left of (or on) ab: dx*ey >= dy*ex; otherwise swap the roles of the two offsets' cross terms
+        if dx * ey < dy * ex { std::mem::swap(&mut ex, &mut ey); }
+        if dx * ey < dy * ex { ex = 0; }
+        let b = [a[0] + dx, a[1] + dy];
+        let c = [a[0] + ex, a[1] + ey];
+        let cr: i128 = (dx as i128) * (ey as i128) - (dy as i128) * (ex as i128);
+        assert!(cr >= 0 && (dx as i128) * (ey as i128) <= <$T>::MAX as i128 && b.iter().chain(c.iter()).all(|&k| (k as i128) <= <$T>::MAX as i128));
+        let v = |p: [i64; 2]| -> Vec2<$T> { Vec2 { x: p[0] as $T, y: p[1] as $T } };
+        let mut h = H64::new();
+        h.s($ty);
+        for p in [a, b, c] {
+            h.i(p[0] as i128).i(p[1] as i128);
+        }
+        let inp = format!("a={:?} b={:?} c={:?} (b >= a, c >= a, c left of or on ab; every edge, product and the result fit {})", a, b, c, $ty);
+        $sub.saw("Vec2::signed_triangle_area");
+        $sub.saw("Vec2::determine_side");
+        let got = guarded(|| (v(c).determine_side(v(a), v(b)), Vec2::<$T>::signed_triangle_area(v(a), v(b), v(c))));
+        match got {
+            Err(e) => {
+                let vio = violation(PROP, $sub, "Vec2::determine_side", $ty, "panic", "cross2d_of_representable_unsigned_triangle", format!("{}: panicked: {}", inp, e), $cfg.case_seed(), $idx);
+                $sub.violated(vio);
+            }
+            Ok((side, sa)) => {
+                let (side, sa) = (side as i128, sa as i128);
+                if side != cr {
+                    let vio = violation(PROP, $sub, "Vec2::determine_side", $ty, "wrong_value", "not_cross2d", format!("{}: determine_side = {}, (b-a) x (c-a) = {}", inp, side, cr), $cfg.case_seed(), $idx);
+                    $sub.violated(vio);
+                } else if sa != cr / 2 {
+                    let vio = violation(PROP, $sub, "Vec2::signed_triangle_area", $ty, "wrong_value", "not_half_cross2d", format!("{}: signed_triangle_area = {}, half of {} (truncating) = {}", inp, sa, cr, cr / 2), $cfg.case_seed(), $idx);
+                    $sub.violated(vio);
+                } else {
+                    $sub.sample(|| format!("[{}] {} -> side {}", $ty, inp, side));
+                    $sub.held(h.get(), cr != 0);
+                }
+            }
+        }
+    }};
+}
 trait IsInt {
     const INT: bool;
 }
@@ -1630,6 +1681,16 @@ fn main() {
             area_native_case!(s, &cfg, i, i16, "i16", 400, 100, |k: i64| k as i16, |x: i16| x as f64);
             area_native_case!(s, &cfg, i, i32, "i32", 2_000_000, 3000, |k: i64| k as i32, |x: i32| x as f64);
             area_native_case!(s, &cfg, i, i64, "i64", 1i64 << 40, 1i64 << 20, |k: i64| k, |x: i64| x as f64);
+        }));
+    }
+    {
+        let na = cfg.n(400, 40_000);
+        let proto = Sub::new("area_unsigned", "Vec2<u8> (corner up to 100, edges up to 12), Vec2<u16> (corner up to 30000, edges up to 180), Vec2<u32> (corner up to 2^31, edges up to 46000), Vec2<u64> (corner up to 2^62, edges up to 2^31): b >= a and c >= a componentwise with c left of or on ab, so that b-a, c-a, both products and the cross product are natural numbers that fit the type; determine_side = (b-a) x (c-a) and signed_triangle_area = half of it (truncating); a panic (the `checked` profile has overflow checks) is a violation; non-trivial = not collinear").with_floor(na * 2).require(&["Vec2::signed_triangle_area", "Vec2::determine_side"]);
+        push_sub(&mut rep, run_cases(&cfg, proto, na, |s, i| {
+            area_unsigned_case!(s, &cfg, i, u8, "u8", 100, 12);
+            area_unsigned_case!(s, &cfg, i, u16, "u16", 30_000, 180);
+            area_unsigned_case!(s, &cfg, i, u32, "u32", 1i64 << 31, 46_000);
+            area_unsigned_case!(s, &cfg, i, u64, "u64", 1i64 << 62, 1i64 << 31);
         }));
     }
     {
